@@ -249,7 +249,14 @@ fn describe_datagram(data: &[u8], tsi: u64) -> Option<String> {
         hex(&data[pkt.data_alc_header_offset..pkt.data_payload_offset]),
         // the payload of a flood datagram (tens of kB of zeros, never decoded) is not spelled out:
         // the model accounts the datagram by its length
-        if data.len() - pkt.data_payload_offset > 4096 { String::new() } else { hex(&data[pkt.data_payload_offset..]) },
+        // (above 20000 bytes: nothing; above 4096 bytes: z<length>, the model gets that many zero bytes)
+        if data.len() - pkt.data_payload_offset > 20000 {
+            String::new()
+        } else if data.len() - pkt.data_payload_offset > 4096 {
+            format!("z{:x}", data.len() - pkt.data_payload_offset)
+        } else {
+            hex(&data[pkt.data_payload_offset..])
+        },
         data.len()
     ))
 }
@@ -867,6 +874,41 @@ fn channel(kind: &str, seed: u64, arg: u64, g: &[Vec<u8>]) -> Vec<Vec<u8>> {
                 }
             }
         }
+        "fdtmany" => {
+            // after the genuine packets: `arg` further COMPLETE FDT instances (copies of the first, single-packet
+            // instance under new instance ids): the receiver keeps only the newest few of them
+            let first = v.iter().find(|p| matches!(flute::core::alc::parse_alc_pkt(p), Ok(ref q) if q.lct.toi == 0 && q.fdt_info.is_some())).cloned();
+            if let Some(t) = first {
+                for k in 0..arg {
+                    if let Some(d) = fdt_reid_pkt(&t, 0x1000 + k as u32) {
+                        v.push(d);
+                    }
+                }
+            }
+        }
+        "fatsym" => {
+            // every object packet but the first symbol of each block (the blocks never complete), its symbol
+            // padded to `arg` bytes: far longer than the encoding symbol length the blocks are accounted with
+            let mut w = Vec::new();
+            for p in v {
+                match flute::core::alc::parse_alc_pkt(&p) {
+                    Ok(pk) if pk.lct.toi != 0 => {
+                        let pid = &p[pk.data_alc_header_offset..pk.data_payload_offset];
+                        if pid.len() == 4 && u16::from_be_bytes([pid[2], pid[3]]) == 0 {
+                            continue;
+                        }
+                        let mut q = p.clone();
+                        let have = p.len() - pk.data_payload_offset;
+                        if (arg as usize) > have {
+                            q.extend(std::iter::repeat(0u8).take(arg as usize - have));
+                        }
+                        w.push(q);
+                    }
+                    _ => w.push(p),
+                }
+            }
+            v = w;
+        }
         "tinyflood" => {
             // no FDT at all; after the genuine object packets (no in-band FTI: all cached), `arg` copies of the
             // first one cut after its FEC payload id: datagrams with an EMPTY symbol, which cost the receiver
@@ -1207,6 +1249,9 @@ fn gen(args: &Args, emit: &mut dyn FnMut(String)) {
 
 /// traffic that keeps objects undecodable (C17): no FDT, FDT-only OTI, missing symbols, many TOIs,
 /// FDT instances that never complete, small cache limits, time-outs with real (short) sleeps
+// symbols far longer than the encoding symbol length (D47 was found there)
+const FATSYM: bool = false;
+
 fn gen_mem(args: &Args, emit: &mut dyn FnMut(String)) {
     let thorough = args.tier == "thorough";
     let mut rng = Rng::new(args.seed.wrapping_mul(104729).wrapping_add(args.shard.0 * 17 + 3));
@@ -1224,10 +1269,13 @@ fn gen_mem(args: &Args, emit: &mut dyn FnMut(String)) {
         let cache = *rng.pick(&[64u64, 256, 1024, 4096, 10485760]);
         let maxerr = *rng.pick(&[0u32, 1, 3]);
         let (fec, par) = if rng.chance(1, 3) { ("rs28", 1) } else { ("nocode", 0) };
-        let scenario = if i % 60 == 59 { 7 } else if i % 60 == 29 { 8 } else if i % 60 == 44 { 9 } else if nobj >= 3 { rng.below(7) } else { rng.below(6) };
+        let scenario = if i % 60 == 59 { 7 } else if i % 60 == 29 { 8 } else if i % 60 == 44 { 9 } else if i % 60 == 14 { 10 } else if FATSYM && i % 60 == 51 { 11 } else if nobj >= 3 { rng.below(7) } else { rng.below(6) };
         // scenario 8: one small object, a small cache, thousands of empty-symbol datagrams
         let (nobj, osecs, cache, fec, par) = if scenario == 8 {
             (1u64, vec![format!("O {} {} 0 0", (e * b) as u64 * 2, i % 13)], *rng.pick(&[64u64, 256]), "nocode", 0)
+        } else if scenario == 11 {
+            // one long object: more blocks than the cache limit accounts for
+            (1u64, vec![format!("O {} {} 0 0", (e * b) as u64 * 160, i % 13)], 4096u64, if rng.chance(1, 2) { "rs28" } else { "nocode" }, 1)
         } else {
             (nobj, osecs, cache, fec, par)
         };
@@ -1257,6 +1305,10 @@ fn gen_mem(args: &Args, emit: &mut dyn FnMut(String)) {
             // many FDT instances that stay unfinished (one packet of each missing), released by cleanup after the
             // time-out whether or not the FDT expiry check is enabled
             9 => (1, "fdthalf", 30, format!(" otimeout=25 fdte=32{}", if (i / 60 + args.shard.0) % 2 == 0 { " exp=0" } else { "" }), " ; E sleepend:60,cleanup@end".to_string()),
+            // symbols far longer than the announced encoding symbol length, blocks that never complete
+            11 => (1, "fatsym", 8000, String::new(), String::new()),
+            // hundreds of complete FDT instances: only the newest few are kept
+            10 => (1, "fdtmany", 300, String::new(), String::new()),
             // empty-symbol datagrams of an object whose OTI never arrives: the cache limit must still bound what is kept
             8 => (0, "tinyflood", 3000, String::new(), String::new()),
             // an object stalls, later objects bring new FDT instances at intervals shorter than the
